@@ -82,8 +82,14 @@ Theorem C16_total : forall t b, tde_top t b <> Err Fuel.
 Proof. exact tde_total. Qed.
 Print Assumptions C16_total.
 
-(* the doc attribute: refuted as emitted today, true for lines without quote/backslash/CR, true
-   for every line once the text is escaped *)
+(* the doc attribute: as the code emits it now (every site escapes, tie doc_attr_tie through the translator)
+   every doc line is read back by the Rust lexer unchanged *)
+Theorem C16_doc_attr_current : forall d, rust_string_literal (emit_doc_attr_current d) = Some d.
+Proof. exact doc_attr_current. Qed.
+Print Assumptions C16_doc_attr_current.
+
+(* history: refuted as emitted before the repair 4f543b4 (text pasted between two quotes), true there only
+   for lines without quote/backslash/CR, true for every line once the text is escaped *)
 Theorem C16_doc_attr_refuted : exists d, rust_string_literal (emit_doc_attr d) <> Some d.
 Proof. exact doc_attr_refuted. Qed.
 Print Assumptions C16_doc_attr_refuted.
